@@ -1,16 +1,18 @@
-use verif_harness::e2_handler::*;
+use inputlayer::{DurabilityMode, StorageEngine, Tuple, Value};
+use verif_harness::e2_store::mk_config;
+fn ta() -> Tuple { Tuple::new(vec![Value::Int64(1), Value::Int64(2)]) }
+fn show(s: &StorageEngine) -> String { format!("{:?}", s.execute_query_tuples_on("default", "q(X,Y) <- r(X,Y)").map(|v| v.len())) }
 fn main() {
-    let mut e = inputlayer::IQLEngine::new();
-    e.add_tuples("e", vec![inputlayer::Tuple::new(vec![inputlayer::Value::Int64(2), inputlayer::Value::Int64(3)])]);
-    for p in ["h(X, Y) <- e(X, Z), Y = Z * 2.0", "h(X, Y) <- e(X, Z), Y = Z * 2", "g(X, 2.0) <- e(X, _)", "g(X, 2.5) <- e(X, _)", "h(X, Y) <- e(X, Z), Y = Z * 0.5"] {
-        println!("{p} => {:?}", e.execute_tuples(p));
+    let dir = std::path::PathBuf::from(std::env::args().nth(1).unwrap());
+    let cfg = || mk_config(&dir, 2, DurabilityMode::Immediate, None);
+    let wal = dir.join("persist/wal/current.wal");
+    {
+        let s = StorageEngine::new(cfg()).unwrap();
+        println!("after recovery: {} ; wal {:?}", show(&s), std::fs::read_to_string(&wal));
+        println!("delete: {:?}", s.delete_tuples_from("default", "r", vec![ta()]));
+        println!("after delete: {} ; wal: {:?}", show(&s), std::fs::read_to_string(&wal));
+        drop(s);
     }
-    let env = Env::new("probe");
-    env.create_kg("A");
-    env.insert("A", "e", vec![inputlayer::Tuple::new(vec![inputlayer::Value::Int64(2), inputlayer::Value::Int64(3)])]);
-    println!("{:?}", env.query_program(Some("A"), "h(X, Y) <- e(X, Z), Y = Z * 2.0\n?h(A,B)").map(|q| q.rows));
-    println!("{:?}", env.query_program(Some("A"), "+p(X, Y) <- e(X, Z), Y = Z * 2.0").map(|q| q.rows));
-    println!("{:?}", env.query_program(Some("A"), "?p(A,B)").map(|q| q.rows));
-    println!("{:?}", env.query_program(Some("A"), "+p2(X, 2.0) <- e(X, _)").map(|q| q.rows));
-    println!("{:?}", env.query_program(Some("A"), "?p2(A,B)").map(|q| q.rows));
+    let s = StorageEngine::new(cfg()).unwrap();
+    println!("after clean restart: {}", show(&s));
 }
